@@ -3,8 +3,10 @@ package c02
 // TestVersionSweep: a deterministic sweep over (box type, instance, version byte). Size() formulas and
 // encoders branch on the version separately ("== 0", "== 1", ">= 1" ...); a disagreement for a version the
 // box does not define (which the decoders accept) is invisible to random field mutation unless it happens to
-// hit the version byte of that very box. Every leaf type the grammar generator knows is instantiated a number of
-// times and re-stamped with each version of a fixed list; the usual size oracle (checkSizes) judges the result.
+// hit the version byte of that very box. Every leaf type the grammar generator knows, its full-box containers (meta,
+// stsd, dref, trep) and its sample entries are instantiated a number of times and re-stamped with each version of a
+// fixed list (at the instance's own flags) and with each flag value of a second list (at the instance's own version);
+// the usual size oracle (checkSizes) judges the result.
 
 import (
 	"fmt"
@@ -21,8 +23,36 @@ import (
 
 var sweepVersions = []uint64{0, 1, 2, 3, 4, 0x7f, 0x80, 0xff}
 
+// sweepFlags: flag values stamped on every instance at the instance's own version. The don't-care list never masks
+// full-box flags ("Fullbox flags are never masked"): a box accepted with flag bits it does not define has to write them
+// back (judged by C01; here: Size() formulas and encoders that branch on flags must agree). 1 and 0x100 are the lowest bits of the two low flag bytes (defined for some boxes, undefined for most).
+var sweepFlags = []uint64{1, 0x100, 0xffffff}
+
+// sweepContainers: the container types of the grammar generator that start with version/flags (full-box containers)
+// and the sample entries (for those the four bytes are the first of SampleEntry.reserved[6]: whatever they hold, the
+// entry has to decode to the same structure and re-encode with the children intact).
+var sweepContainers = []string{"meta", "stsd", "dref", "trep",
+	"avc1", "avc3", "hvc1", "hev1", "encv", "av01", "vp08", "vp09", "mp4a", "enca", "ac-3", "ec-3", "wvtt", "stpp", "evte"}
+
+// sweepTypes returns the leaf types followed by those of sweepContainers the generator knows.
+func sweepTypes() (types []string, nLeaf, nCont int) {
+	types = boxgen.LeafTypes()
+	nLeaf = len(types)
+	known := map[string]bool{}
+	for _, c := range boxgen.ContainerTypes() {
+		known[c] = true
+	}
+	for _, c := range sweepContainers {
+		if known[c] {
+			types = append(types, c)
+			nCont++
+		}
+	}
+	return
+}
+
 func TestVersionSweep(t *testing.T) {
-	types := boxgen.LeafTypes()
+	types, nLeaf, nCont := sweepTypes()
 	instances := harness.Pick(12, 60)
 	bad := 0
 	for ti, typ := range types {
@@ -31,25 +61,35 @@ func TestVersionSweep(t *testing.T) {
 		}
 		typ := typ
 		gen := rapid.Custom(func(rt *rapid.T) []byte { return boxgen.Box(rt, typ, boxgen.Opt{}) })
-		accepted := 0
+		accepted, acceptedFlags := 0, 0
 		for i := 0; i < instances; i++ {
 			base := gen.Example(i)
 			if len(base) < 12 {
 				continue
 			}
-			// keep the flags of the instance, replace the version
-			flags := uint64(0)
+			// keep the flags of the instance, replace the version; then keep the version and replace the flags
+			flags, version := uint64(0), uint64(0)
 			if tree, _ := boxwalk.WalkAll(base); len(tree) > 0 && tree[0].PayloadStart()+4 <= len(base) {
 				ps := tree[0].PayloadStart()
+				version = uint64(base[ps])
 				flags = uint64(base[ps+1])<<16 | uint64(base[ps+2])<<8 | uint64(base[ps+3])
 			}
+			var stamps []uint64
 			for _, v := range sweepVersions {
+				stamps = append(stamps, v<<24|flags)
+			}
+			for _, fl := range sweepFlags {
+				stamps = append(stamps, version<<24|fl)
+			}
+			for si, vf := range stamps {
 				for _, path := range []string{"reader", "sr"} {
 					c := boxprop.Case{Box: -1, Level: "box", Path: path, Synth: base, Origin: "box:" + typ,
-						Muts: []boxmut.Mut{{Op: "verflags", Box: 0, Val: v<<24 | flags}}, SWFirst: i%2 == 1}
+						Muts: []boxmut.Mut{{Op: "verflags", Box: 0, Val: vf}}, SWFirst: i%2 == 1}
 					f := harness.Guarded(func() *harness.Fail { return checkSizes(c) })
-					if last.encoded {
+					if last.encoded && si < len(sweepVersions) {
 						accepted++
+					} else if last.encoded {
+						acceptedFlags++
 					}
 					if f != nil && harness.ReportDirect(t, "sizes", c, f) {
 						bad++
@@ -60,11 +100,12 @@ func TestVersionSweep(t *testing.T) {
 				}
 			}
 		}
-		n := int64(instances * len(sweepVersions) * 2)
-		harness.Rec.BulkDistinct(n, int64(accepted), "versionsweep-"+typ)
+		harness.Rec.BulkDistinct(int64(instances*len(sweepVersions)*2), int64(accepted), "versionsweep-"+typ)
+		harness.Rec.BulkDistinct(int64(instances*len(sweepFlags)*2), int64(acceptedFlags), "flagsweep-"+typ)
 		if harness.Rec.WantSample() {
-			harness.Rec.Sample(map[string]interface{}{"kind": "versionsweep", "type": typ, "instances": instances, "versions": fmt.Sprint(sweepVersions), "accepted+encoded": accepted})
+			harness.Rec.Sample(map[string]interface{}{"kind": "versionsweep", "type": typ, "instances": instances, "versions": fmt.Sprint(sweepVersions), "flags": fmt.Sprint(sweepFlags),
+				"accepted+encoded": accepted, "accepted+encoded (flag stamps)": acceptedFlags})
 		}
 	}
-	harness.Rec.Exhaustive(fmt.Sprintf("version sweep: %d leaf types x %d grammar instances x versions %v x {reader, sr}", len(types), instances, sweepVersions))
+	harness.Rec.Exhaustive(fmt.Sprintf("version sweep: (%d leaf types + %d full-box containers and sample entries) x %d grammar instances x (versions %v at the instance's flags + flags %x at the instance's version) x {reader, sr}", nLeaf, nCont, instances, sweepVersions, sweepFlags))
 }
